@@ -3,6 +3,7 @@
 
 pub mod aio;
 pub mod fuzz;
+pub mod networld;
 pub mod logcap;
 pub mod panics;
 pub mod watchdog;
